@@ -7,9 +7,11 @@
              vector is never borrowed mutably / reassigned outside freeze; the init loop writes one slot per source
              node; phase 2 only touches per_type_lookup and the lookup builder never reads that field; no NodeRef is
              dereferenced during phase 1; slots are created initialised (no set_len / MaybeUninit); every index range
-             walked in freeze is 0..nodes.len()
+             walked in freeze is 0..nodes.len(); no mutable borrow into the node storage is live across a call that
+             dereferences NodeRefs (a union may list itself: found F14)
   FROZEN     no mutable path to frozen storage: no function takes &mut Schema or returns &mut into it; NodeRef exposes
-             only as_ref / Deref; no interior mutability in SchemaNode's transitive field types; Send/Sync impls are
+             only as_ref / Deref; no interior mutability in SchemaNode's transitive field types; types living inside the
+             node storage point at nodes through NodeRef only, never through plain references; Send/Sync impls are
              conditional on T: Sync
   STATIC     the fake-'static root is obtained only in the container reader's constructor, flows only into the reader
              aggregate whose `schema` field is the same Arc; that field is never reassigned and only exposed as
